@@ -140,6 +140,10 @@ func RunShards(p *Prop, pc *ParentCtx, extraEnv []string) *Aggregate {
 				step = 4
 			}
 
+			if variant.suffix == ".racebuild" {
+				step /= 2 // its shards are scaled down eightfold, and it is the one that sees races
+			}
+
 			for i := int((pc.Seed + uint64(5*vi+1)) % uint64(step)); i < NShards; i += step {
 				wg.Add(1)
 
@@ -242,6 +246,16 @@ func RunShards(p *Prop, pc *ParentCtx, extraEnv []string) *Aggregate {
 	for idx := range outs {
 		o := outs[idx]
 		i := o.shard
+
+		if strings.HasSuffix(o.out, ".racebuild.json") {
+			// the shard was run by the monitors built with the race detector: its reports about the module's own code count
+			if rep := raceReportInModule(o.log); rep != "" {
+				agg.ViolCount++
+				agg.Violations = append(agg.Violations, Violation{Property: p.ID, Key: "data-race-in-race-build-rerun",
+					What: "the race detector (shard " + fmt.Sprint(i) + " re-run under the race-detector build of the monitors) reports a data race involving the module's code during this check's own concurrent workloads",
+					More: map[string]any{"report": Trunc(rep, 3000)}})
+			}
+		}
 
 		if o.stall.Deadlock != "" {
 			// which case? run the shard again, recording each case before it runs (it will stall again)
@@ -387,6 +401,43 @@ func runChildEnv(p *Prop, pc *ParentCtx, i int, extraEnv []string, suffix string
 // stallAfter: how long a child must have been completely idle (no runnable thread, no CPU time used) before it is asked
 // for its goroutine dump.
 const stallAfter = 25 * time.Second
+
+// raceReportInModule returns the first race report of a child's log in which BOTH accesses were made from code of the
+// module under test (top frame of each of the two stacks; harness frames are under zz_verif and do not count).
+func raceReportInModule(logPath string) string {
+	b, err := os.ReadFile(logPath)
+	if err != nil {
+		return ""
+	}
+
+	for _, blk := range strings.Split(string(b), "==================") {
+		if !strings.Contains(blk, "WARNING: DATA RACE") {
+			continue
+		}
+
+		// the two access stacks are the first two paragraphs ("Write at ... by goroutine N:" / "Previous read at ...")
+		paras := strings.Split(strings.TrimSpace(blk), "\n\n")
+		tops := 0
+
+		for _, para := range paras {
+			lines := strings.Split(strings.TrimSpace(para), "\n")
+			if len(lines) < 2 || !(strings.Contains(lines[0], " at 0x") && strings.Contains(lines[0], "by ")) {
+				continue
+			}
+
+			top := strings.TrimSpace(lines[1])
+			if strings.HasPrefix(top, ModulePath+".") || strings.HasPrefix(top, ModulePath+"/internal/") {
+				tops++
+			}
+		}
+
+		if tops >= 2 {
+			return strings.TrimSpace(blk)
+		}
+	}
+
+	return ""
+}
 
 // countDistinct merges the sorted fingerprint files of all shards and counts distinct values exactly.
 func countDistinct(files []string) int64 {
